@@ -179,3 +179,22 @@ class C11(Check):
                "Go harness cmd_suci.go (constructor calls copied from RegisterUE/DeregisterUE/ManageNGSetup); ngap.Decoder used to locate PLMN octets inside NGAP messages"]
     assumptions = ["IMSI digits only in the theorem (the malformed stream covers hex letters / other characters / too short strings on the model side)",
                    "NGAP PLMNIdentity is taken to use the TS 24.501/24.008 nibble order, as the property states (agrees with the library's PlmnIDToNas)"]
+
+    # ---- process level: the identities RegisterUE itself sends (initial request AND the request inside the Security Mode Complete)
+    def extra(self, harness, build_ok):
+        import os, sys
+        from .. import proc
+        sys.path.insert(0, os.path.join(C.VERIF, "refamf"))
+        binary, err = C.build_emulator()
+        if binary is None:
+            raise RuntimeError("emulator build failed: " + err[-1500:])
+        cfgs = []
+        plmns = [("208", "93"), ("001", "001"), ("310", "410"), ("999", "07")] + ([("405", "025"), ("001", "01"), ("722", "070"), ("234", "15")] if self.tier != "quick" else [])
+        for i, (mcc, mnc) in enumerate(plmns):
+            r = self.rng.fork("reg%d" % i)
+            c = proc.default_cfg(r, counts=[2, 0, 0, 0, 1])
+            msin = c["imsi"][len(c["mcc"]) + len(c["mnc"]):][:15 - len(mcc) - len(mnc)]
+            c.update(mcc=mcc, mnc=mnc, imsi=mcc + mnc + msin)
+            cfgs.append(c)
+        proc.registration_runs(self, binary, cfgs, "SUCI and PLMN identities on the wire")
+
